@@ -1871,15 +1871,21 @@ func c03IsCascade(b *c03Build, e c03Edge, got, want string, out map[string]*reso
 		return false
 	}
 	// kinds of the rows that reach this field of this referrer
+	// (a row that lists the field twice - the Secret row has Ingress spec/tls/secretName twice and the merge of
+	// the default table keeps duplicates inside a row - visits it twice: it can follow its own rewrite)
 	reaching := map[string]bool{}
+	visits := map[string]int{}
+	total := 0
 	for _, row := range rules {
 		for _, fs := range row.Referrers {
 			if fs.Path == e.RulePath && c03RuleSelects(fs.Group, fs.Version, fs.Kind, a.APIVersion, a.Kind) {
 				reaching[row.Kind] = true
+				visits[row.Kind]++
+				total++
 			}
 		}
 	}
-	if !reaching[t.Kind] || len(reaching) < 2 {
+	if !reaching[t.Kind] || total < 2 {
 		return false
 	}
 	type state struct{ text, lastKind string }
@@ -1890,7 +1896,7 @@ func c03IsCascade(b *c03Build, e c03Edge, got, want string, out map[string]*reso
 		todo = todo[1:]
 		for _, r := range b.Res {
 			o := out[r.ID]
-			if o == nil || !reaching[r.Kind] || r.Kind == cur.lastKind || !c03NameInHistory(b, r, cur.text) {
+			if o == nil || !reaching[r.Kind] || (r.Kind == cur.lastKind && visits[r.Kind] < 2) || !c03NameInHistory(b, r, cur.text) {
 				continue
 			}
 			next := o.GetName()
